@@ -16,6 +16,11 @@ C20-index   every subscript by `._ufl_typecode_` outside the registry module ind
 C20-sd      DAGTraverser-based algorithms dispatch through functools.singledispatchmethod (whose cache is
             invalidated on registration) - no typecode tables.
 C20-cache/key  the cache entry is found under the exact algorithm class (see C19-mro/cache).
+C20-late    MultiFunction.__init__ / Transformer.__init__ interpreted from source in a model type registry to which types
+            are appended after algorithm classes have been used (an operator, a terminal, a subtype of a type with its own
+            handler, a concrete non-Expr type that still carries the inherited abstract flag): every *new instance of an
+            already used class* dispatches the new type - and all older ones - to the first handler along the type's
+            mro that the class provides, with the right cut-off / visit-order flag (sa/rules/c19_dispatch.py).
 """
 
 from __future__ import annotations
@@ -231,6 +236,11 @@ def run(ctx) -> Report:
                 rep.ok("C20-sd", p, f"{c.name}.process is a singledispatchmethod")
             else:
                 rep.violation("C20-sd", p, f"{c.name}.process", f"{c.name} redefines process without singledispatchmethod")
+    # ---- late registration interpreted: MultiFunction / Transformer __init__ in a model registry that grows ----
+    from .c19_dispatch import run_dispatch
+
+    run_dispatch(ctx, rep, rules=("C20-late",))
+    rep.require_min("C20-late", 20)
     rep.require_min("C20-cache", 4)
     rep.require_min("C20-live", 4)
     rep.require_min("C20-sd", 10)
